@@ -21,8 +21,11 @@ import (
 	"os"
 	"path/filepath"
 	"regexp"
+	"runtime/pprof"
 	"sort"
+	"strconv"
 	"strings"
+	"syscall"
 	"testing"
 	"time"
 
@@ -33,6 +36,7 @@ import (
 	"github.com/snapcore/snapd/bootloader/assets"
 	"github.com/snapcore/snapd/bootloader/bootloadertest"
 	"github.com/snapcore/snapd/dirs"
+	"github.com/snapcore/snapd/osutil"
 	"github.com/snapcore/snapd/osutil/kcmdline"
 	"github.com/snapcore/snapd/snap"
 	eng "github.com/snapcore/snapd/verifengine"
@@ -96,6 +100,10 @@ type hstate struct {
 	TrialB []string `json:"trial_base,omitempty"`
 	EverK  []string `json:"ever_good_kernel,omitempty"` // revisions that have been known-good (undo targets)
 	EverB  []string `json:"ever_good_base,omitempty"`
+	// the revision selected by the most recent trial boot of the type, until it becomes known-good or is
+	// requested again: booting it once more means a used-up (failed or interrupted) trial is repeated
+	TriedK string `json:"tried_kernel,omitempty"`
+	TriedB string `json:"tried_base,omitempty"`
 }
 
 type state struct {
@@ -163,6 +171,21 @@ func (h *hstate) setTrial(typ string, v []string) {
 		h.TrialK = v
 	} else {
 		h.TrialB = v
+	}
+}
+
+func (h hstate) tried(typ string) string {
+	if typ == "kernel" {
+		return h.TriedK
+	}
+	return h.TriedB
+}
+
+func (h *hstate) setTried(typ, v string) {
+	if typ == "kernel" {
+		h.TriedK = v
+	} else {
+		h.TriedB = v
 	}
 }
 
@@ -248,14 +271,15 @@ func (dev16) IsClassicBoot() bool   { return false }
 func (dev16) Model() *asserts.Model { panic("Model() is not used for UC16 boot state") }
 
 type device struct {
-	v       variantT
-	root    string
-	dev     snap.Device
-	mb      *bootloadertest.MockBootloader
-	ebl     *bootloadertest.MockExtractedRunKernelImageBootloader
-	grub    []gnode
-	places  map[string]snap.PlaceInfo
-	curMenv string
+	v          variantT
+	root       string
+	dev        snap.Device
+	mb         *bootloadertest.MockBootloader
+	ebl        *bootloadertest.MockExtractedRunKernelImageBootloader
+	grub       []gnode
+	places     map[string]snap.PlaceInfo
+	curMenv    string
+	curCmdline string
 
 	recording  bool
 	writes     []pstate
@@ -417,12 +441,6 @@ func grubCfgSource() (text string, from string) {
 
 func newDevice(v variantT, root string) (*device, pstate) {
 	d := &device{v: v, root: root, places: map[string]snap.PlaceInfo{}}
-	// snapd's Mock* helpers insist on osutil.IsTestBinary(), which matches os.Args[0] against
-	// ".../go-build.../x.test"; the driver runs the compiled test binary from $VERIF_WORK/bin, so the
-	// name is adjusted for the lifetime of the device (restored before any re-exec).
-	realArg0 := os.Args[0]
-	os.Args[0] = "/verif/go-build-c17/c17.test"
-	d.restore = append(d.restore, func() { os.Args[0] = realArg0 })
 	dirs.SetRootDir(root)
 	d.restore = append(d.restore, func() { dirs.SetRootDir("/") })
 	blobs := dirs.SnapBlobDirUnder(root)
@@ -578,8 +596,11 @@ func (d *device) initramfs(p pstate, cmdlineTrying bool) initramfsResult {
 	if cmdlineTrying {
 		cl += " kernel_status=trying"
 	}
-	if err := os.WriteFile(d.cmdlineFile, []byte(cl+"\n"), 0644); err != nil {
-		eng.HarnessError("%v", err)
+	if cl != d.curCmdline {
+		if err := os.WriteFile(d.cmdlineFile, []byte(cl+"\n"), 0644); err != nil {
+			eng.HarnessError("%v", err)
+		}
+		d.curCmdline = cl
 	}
 	var res initramfsResult
 	d.rebootRequested = false
@@ -771,14 +792,22 @@ func (x *explorer) checkGoodUnchanged(before, after pstate, allowK, allowB strin
 
 // O2/O4: what a boot selects is the known-good revision or a revision under trial; selecting a trial
 // revision uses the trial up (a trial that ended without becoming known-good must not be booted again).
-func selectCheck(typ, selected, good string, trial []string) (ps []problem, newTrial []string, isTrial bool) {
+func selectCheck(typ, selected, good string, h hstate) (ps []problem, nh hstate, isTrial bool) {
 	if selected == good {
-		return nil, trial, false
+		return nil, h, false
 	}
+	trial := h.trial(typ)
 	if !setHas(trial, selected) {
-		ps = append(ps, problem{Oracle: "O2-boots-untrusted-revision", Cause: typ, Msg: fmt.Sprintf("boot selects %s %s which is neither the known-good %s nor a revision under trial %v (a failed/interrupted or never requested trial is booted)", typ, selected, good, trial)})
+		cause, why := typ+"-withdrawn-or-never-requested", "a withdrawn or never requested trial is booted"
+		if h.tried(typ) == selected {
+			cause, why = typ+"-used-up-trial", "a trial that already had its boot and did not become known-good (failed or interrupted) is booted again"
+		}
+		ps = append(ps, problem{Oracle: "O2-boots-untrusted-revision", Cause: cause, Msg: fmt.Sprintf("boot selects %s %s which is neither the known-good %s nor a revision under trial %v: %s", typ, selected, good, trial, why)})
 	}
-	return ps, nil, true
+	nh = h
+	nh.setTrial(typ, nil)
+	nh.setTried(typ, selected)
+	return ps, nh, true
 }
 
 func (x *explorer) stepBoot(s state) succ {
@@ -794,14 +823,14 @@ func (x *explorer) stepBoot(s state) succ {
 		ns.V = vstate{Phase: "off"}
 		out.Nontrivial = true
 	case "boot":
-		ps, nt, isTrial := selectCheck("kernel", fw.Kernel, gk, s.H.TrialK)
+		ps, nh, isTrial := selectCheck("kernel", fw.Kernel, gk, ns.H)
 		out.Problems = append(out.Problems, ps...)
-		ns.H.TrialK = nt
+		ns.H = nh
 		out.Nontrivial = isTrial || fw.P.key() != s.P.key()
 		if x.v.Kind == kindUC16 {
-			ps, nt, isTrialB := selectCheck("base", fw.Base, gb, s.H.TrialB)
+			ps, nh, isTrialB := selectCheck("base", fw.Base, gb, ns.H)
 			out.Problems = append(out.Problems, ps...)
-			ns.H.TrialB = nt
+			ns.H = nh
 			out.Nontrivial = out.Nontrivial || isTrialB
 			ns.V = vstate{Phase: "run", RunK: fw.Kernel, RunB: fw.Base}
 		} else {
@@ -827,9 +856,9 @@ func (x *explorer) stepInitramfs(s state) []succ {
 		if !setHas(currentKernels(s.P), res.kernel) {
 			fin.Problems = append(fin.Problems, problem{Oracle: "O3-kernel-not-trusted", Msg: fmt.Sprintf("the initramfs selects kernel %s which is not in current_kernels %v", res.kernel, currentKernels(s.P))})
 		}
-		ps, nt, isTrial := selectCheck("base", res.base, gb, s.H.TrialB)
+		ps, nh, isTrial := selectCheck("base", res.base, gb, ns.H)
 		fin.Problems = append(fin.Problems, ps...)
-		ns.H.TrialB = nt
+		ns.H = nh
 		ns.V = vstate{Phase: "run", RunK: s.V.RunK, RunB: res.base}
 		fin.Class = "initramfs:ok"
 		if isTrial {
@@ -878,7 +907,11 @@ func (x *explorer) stepSetNext(s state, typ string, rev int, noTry bool) []succ 
 	ev := event{Op: "setnext", Type: typ, Rev: rev, NoTry: noTry}
 	what := ev.String()
 	var outs []succ
-	fin := succ{Ev: ev, S: state{P: res.final(s.P), V: s.V, H: s.H}}
+	h := s.H
+	if !noTry && h.tried(typ) == fn {
+		h.setTried(typ, "") // requested again: a new trial of the same revision
+	}
+	fin := succ{Ev: ev, S: state{P: res.final(s.P), V: s.V, H: h}}
 	switch {
 	case res.err != nil:
 		// snapd reports the error to the change; what is persistent stays. The request may be half applied.
@@ -902,7 +935,7 @@ func (x *explorer) stepSetNext(s state, typ string, rev int, noTry bool) []succ 
 	for k := 1; k < len(res.writes); k++ {
 		e := ev
 		e.Crash = k
-		c := succ{Ev: e, S: state{P: res.writes[k-1], V: vstate{Phase: "off"}, H: s.H}, Class: "setnext:power-loss", Nontrivial: true}
+		c := succ{Ev: e, S: state{P: res.writes[k-1], V: vstate{Phase: "off"}, H: h}, Class: "setnext:power-loss", Nontrivial: true}
 		if !noTry && fn != good {
 			c.S.H.setTrial(typ, setAdd(s.H.trial(typ), fn))
 		}
@@ -920,6 +953,12 @@ func (x *explorer) stepMark(s state) []succ {
 	k1, b1 := x.goods(fin.S.P)
 	fin.S.H.EverK = setAdd(s.H.EverK, k1)
 	fin.S.H.EverB = setAdd(s.H.EverB, b1)
+	if fin.S.H.TriedK == k1 {
+		fin.S.H.TriedK = ""
+	}
+	if fin.S.H.TriedB == b1 {
+		fin.S.H.TriedB = ""
+	}
 	fin.Class = "mark: writes:" + strings.Join(res.names, ",")
 	if res.err != nil {
 		fin.Class = "mark:error"
@@ -1038,8 +1077,22 @@ func (x *explorer) bootClosure(p pstate, armed bool) []problem {
 	return ps
 }
 
+// O7 (UC20): the known-good kernel, i.e. what every fallback path boots, is trusted by the modeenv. This
+// is the state invariant behind "the boot never stops for lack of a trusted kernel": it pins a dead
+// end on the write that created it rather than on the later boot that runs into it.
+func (x *explorer) fallbackTrusted(p pstate) []problem {
+	if x.v.Kind == kindUC16 {
+		return nil
+	}
+	gk, _ := x.goods(p)
+	if setHas(currentKernels(p), gk) {
+		return nil
+	}
+	return []problem{{Oracle: "O7-fallback-kernel-not-trusted", Msg: fmt.Sprintf("the known-good (fallback) kernel %s is not listed in current_kernels %v: any boot that falls back to it stops in the initramfs", gk, currentKernels(p))}}
+}
+
 func (x *explorer) closureProblems(s state) []problem {
-	ps := x.bootClosure(s.P, false)
+	ps := append(x.fallbackTrusted(s.P), x.bootClosure(s.P, false)...)
 	if x.v.Kind == kindPiboot20 && s.V.Phase == "run" && s.P.Env["kernel_status"] == "try" {
 		ps = append(append([]problem(nil), ps...), x.bootClosure(s.P, true)...)
 	}
@@ -1131,15 +1184,37 @@ func vkey(v variantT, p problem, path []event) string {
 
 func variants(r *eng.Run) []variantT {
 	kb := []string{"kernel", "base"}
-	dq := func(q, t int) int { return r.Pick(q, t) }
+	dq := func(q, t int) int {
+		if n, err := strconv.Atoi(os.Getenv("C17_DEPTH")); err == nil && n > 0 {
+			return n // experiments only
+		}
+		return r.Pick(q, t)
+	}
+	k, b := []string{"kernel"}, []string{"base"}
+	const full = 64 // above the depth at which the reachable state space closes (measured <= 30): complete exploration
+	if r.Quick() {
+		// quick: complete state space for two revisions (and three where it is small), depth-bounded for three
+		return []variantT{
+			{Name: "uc20-grub/kernel/2revs", Kind: kindGrub20, Types: k, Revs: 2, Depth: dq(full, full)},
+			{Name: "uc20-grub/kernel/3revs", Kind: kindGrub20, Types: k, Revs: 3, Depth: dq(13, full)},
+			{Name: "uc20-grub/base/3revs", Kind: kindGrub20, Types: b, Revs: 3, Depth: dq(full, full)},
+			{Name: "uc20-grub/kernel+base/2revs", Kind: kindGrub20, Types: kb, Revs: 2, Depth: dq(12, full)},
+			{Name: "uc16/kernel/3revs", Kind: kindUC16, Types: k, Revs: 3, Depth: dq(full, full)},
+			{Name: "uc16/kernel+base/2revs", Kind: kindUC16, Types: kb, Revs: 2, Depth: dq(full, full)},
+			{Name: "uc20-notscriptable/kernel/2revs", Kind: kindPiboot20, Types: k, Revs: 2, Depth: dq(full, full)},
+			{Name: "uc20-notscriptable/kernel/3revs", Kind: kindPiboot20, Types: k, Revs: 3, Depth: dq(13, full)},
+			{Name: "uc20-notscriptable/kernel+base/2revs", Kind: kindPiboot20, Types: kb, Revs: 2, Depth: dq(12, full)},
+		}
+	}
 	return []variantT{
-		{Name: "uc20-grub/kernel", Kind: kindGrub20, Types: []string{"kernel"}, Revs: 3, Depth: dq(9, 14)},
-		{Name: "uc20-grub/base", Kind: kindGrub20, Types: []string{"base"}, Revs: 3, Depth: dq(9, 14)},
-		{Name: "uc20-grub/kernel+base", Kind: kindGrub20, Types: kb, Revs: 2, Depth: dq(8, 12)},
-		{Name: "uc16/kernel", Kind: kindUC16, Types: []string{"kernel"}, Revs: 3, Depth: dq(9, 14)},
-		{Name: "uc16/kernel+base", Kind: kindUC16, Types: kb, Revs: 2, Depth: dq(8, 12)},
-		{Name: "uc20-notscriptable/kernel", Kind: kindPiboot20, Types: []string{"kernel"}, Revs: 3, Depth: dq(9, 14)},
-		{Name: "uc20-notscriptable/kernel+base", Kind: kindPiboot20, Types: kb, Revs: 2, Depth: dq(8, 12)},
+		{Name: "uc20-grub/kernel/3revs", Kind: kindGrub20, Types: k, Revs: 3, Depth: dq(full, full)},
+		{Name: "uc20-grub/base/3revs", Kind: kindGrub20, Types: b, Revs: 3, Depth: dq(full, full)},
+		{Name: "uc20-grub/kernel+base/2revs", Kind: kindGrub20, Types: kb, Revs: 2, Depth: dq(full, full)},
+		{Name: "uc16/kernel/3revs", Kind: kindUC16, Types: k, Revs: 3, Depth: dq(full, full)},
+		{Name: "uc16/kernel+base/2revs", Kind: kindUC16, Types: kb, Revs: 2, Depth: dq(full, full)},
+		{Name: "uc16/kernel+base/3revs", Kind: kindUC16, Types: kb, Revs: 3, Depth: dq(full, full)},
+		{Name: "uc20-notscriptable/kernel/3revs", Kind: kindPiboot20, Types: k, Revs: 3, Depth: dq(full, full)},
+		{Name: "uc20-notscriptable/kernel+base/2revs", Kind: kindPiboot20, Types: kb, Revs: 2, Depth: dq(full, full)},
 	}
 }
 
@@ -1169,7 +1244,42 @@ type node struct {
 	depth  int
 }
 
+// snapd's Mock* helpers (boot.MockInitramfsReboot, kcmdline.MockProcCmdline) and the "no fsync in tests"
+// switch of osutil insist on osutil.IsTestBinary(), which matches argv[0] against ".../go-build.../x.test".
+// The driver runs the compiled test binary from $VERIF_WORK/bin, so the process re-executes itself once
+// through a symlink whose path has that shape. Nothing else changes (same binary, same environment).
+func ensureTestBinaryName() {
+	if osutil.IsTestBinary() {
+		return
+	}
+	if os.Getenv("C17_REEXEC") != "" {
+		eng.HarnessError("re-executed but argv[0]=%q is still not recognised as a test binary", os.Args[0])
+	}
+	exe, err := os.Executable()
+	if err != nil {
+		eng.HarnessError("%v", err)
+	}
+	dir := filepath.Join(eng.WorkDir(), "go-build-verif")
+	if err := os.MkdirAll(dir, 0755); err != nil {
+		eng.HarnessError("%v", err)
+	}
+	link := filepath.Join(dir, strings.TrimSuffix(filepath.Base(exe), ".test")+".test")
+	if cur, err := os.Readlink(link); err != nil || cur != exe {
+		tmp := fmt.Sprintf("%s.%d", link, os.Getpid())
+		os.Remove(tmp)
+		if err := os.Symlink(exe, tmp); err != nil {
+			eng.HarnessError("%v", err)
+		}
+		if err := os.Rename(tmp, link); err != nil {
+			eng.HarnessError("%v", err)
+		}
+	}
+	err = syscall.Exec(link, append([]string{link}, os.Args[1:]...), append(os.Environ(), "C17_REEXEC=1"))
+	eng.HarnessError("cannot re-execute as %s: %v", link, err)
+}
+
 func TestC17(t *testing.T) {
+	ensureTestBinaryName()
 	r := eng.Start("C17", "model_checking", 100*time.Second, 15*time.Minute)
 	r.Assume(
 		"bootloadertest mocks stand for the bootloader back-ends: each SetBootVars / EnableKernel / EnableTryKernel / DisableTryKernel / SetBootVarsFromInitramfs call and each modeenv write (osutil.AtomicWriteFile) is one atomic persistent write; power can be lost between any two of them",
@@ -1207,6 +1317,20 @@ func TestC17(t *testing.T) {
 	}
 	r.Info("bounds", bounds)
 	grubConformance(r)
+	if only := os.Getenv("C17_ONLY"); only != "" { // experiments only: one variant, in-process
+		if pf := os.Getenv("C17_PROF"); pf != "" {
+			f, _ := os.Create(pf)
+			pprof.StartCPUProfile(f)
+		}
+		for _, v := range vs {
+			if v.Name == only {
+				exploreVariant(r, v)
+			}
+		}
+		pprof.StopCPUProfile()
+		r.Add("evaluations", r.Count("transitions")+r.Count("boot_closure_runs"))
+		r.Finish(rule)
+	}
 	if r.Sharded(len(vs)) {
 		r.Add("evaluations", r.Count("transitions")+r.Count("boot_closure_runs"))
 		r.Finish(rule)
@@ -1273,7 +1397,7 @@ func exploreVariant(r *eng.Run, v variantT) {
 	for _, p := range x.closureProblems(s0) {
 		report([]event{}, s0, p)
 	}
-	var transitions, nontrivial, crashSucc, deepest int64
+	var transitions, nontrivial, crashSucc, deepest, pruned int64
 	fixpoint := true
 	capped := false
 	var sampleTrial, sampleCrash, sampleMark bool
@@ -1296,12 +1420,16 @@ func exploreVariant(r *eng.Run, v variantT) {
 			if sc.Ev.Crash > 0 {
 				crashSucc++
 			}
-			var path []event
-			if len(sc.Problems) > 0 {
-				path = append(pathTo(qi), sc.Ev)
-				for _, p := range sc.Problems {
+			// a violating transition (or a successor that violates a state oracle) is reported with its path and
+			// not explored further: what follows a broken state is damage, not new information
+			probs := append(append([]problem(nil), sc.Problems...), x.closureProblems(sc.S)...)
+			if len(probs) > 0 {
+				path := append(pathTo(qi), sc.Ev)
+				for _, p := range probs {
 					report(path, sc.S, p)
 				}
+				pruned++
+				continue
 			}
 			k := sc.S.key()
 			if seen[k] {
@@ -1311,14 +1439,6 @@ func exploreVariant(r *eng.Run, v variantT) {
 			nodes = append(nodes, node{s: sc.S, parent: qi, ev: sc.Ev, depth: n.depth + 1})
 			if int64(n.depth+1) > deepest {
 				deepest = int64(n.depth + 1)
-			}
-			if cps := x.closureProblems(sc.S); len(cps) > 0 {
-				if path == nil {
-					path = append(pathTo(qi), sc.Ev)
-				}
-				for _, p := range cps {
-					report(path, sc.S, p)
-				}
 			}
 			// a few explored traces written out in full
 			want := ""
@@ -1345,6 +1465,7 @@ func exploreVariant(r *eng.Run, v variantT) {
 	r.Add("boot_closure_runs", x.closureRuns)
 	r.Add("distinct_nontrivial", nontrivial)
 	r.Add("power_loss_successors", crashSucc)
+	r.Add("violating_transitions_not_expanded", pruned)
 	r.Max("max_depth_reached", deepest)
 	r.Info("variant:"+v.Name, map[string]interface{}{"states": len(nodes), "transitions": transitions, "depth_bound": v.Depth, "deepest_new_state": deepest,
 		"fixpoint_below_bound": fixpoint && !capped, "distinct_persistent_states": len(x.closureMemo), "power_loss_successors": crashSucc})
